@@ -988,6 +988,65 @@ def rule_r15(prog, res) -> None:
         raise AnalysisError(f"C15.R15: only {n} facts folded, minimum 10")
 
 
+# parameters of `modify` that do not depend on which arm (generated / custom bins, …) builds the copy: read and confirmed on
+# the pinned tree — every returning path merges them (`X if P is NotSet else P`) or hands them on
+MODIFY_ALWAYS = {
+    "BinningConfig": ("closed", "cosmology"),  # the closed side and the cosmology apply to generated and to custom edges alike
+    "ScalesConfig": ("rmin", "rmax", "unit", "rweight", "resolution"),  # one arm: all handed to the generic merge
+    "Configuration": ("rmin", "rmax", "unit", "rweight", "resolution", "zmin", "zmax", "num_bins", "method", "edges", "closed", "cosmology", "max_workers"),
+}
+
+
+def rule_r16(prog, res) -> None:
+    """modify honours every parameter on every path: a parameter of `modify` that is independent of the arm that builds
+    the copy (table MODIFY_ALWAYS, confirmed by reading) is read — merged with the current value or handed on — on
+    EVERY returning path of the method, decided on its symbolic paths.  An early return that builds the copy from the
+    current state alone ("nothing to re-compute") silently ignores the parameters that are merged further down"""
+    from .. import symx
+
+    n = 0
+    for cname, always in MODIFY_ALWAYS.items():
+        ci = prog.find_class(cname)
+        md = ci.methods.get("modify")
+        if md is None:
+            raise AnalysisError(f"C15.R16: {cname}.modify vanished")
+        res.touch(md)
+        params = set(md.param_names()[1:])
+        missing_decl = [q for q in always if q not in params]
+        if missing_decl:
+            raise AnalysisError(f"C15.R16: {cname}.modify no longer declares {missing_decl} (table MODIFY_ALWAYS out of date)")
+        try:
+            paths = symx.explore(prog, md, inline=symx.inline_private_helpers(prog), skip_tests=("logger",), max_paths=600)
+        except symx.TooManyPaths:
+            raise AnalysisError(f"C15.R16: too many paths through {md.short}") from None
+        rets = [p for p in paths if p.outcome == "return"]
+        if not rets:
+            raise AnalysisError(f"C15.R16: {md.short} has no returning path")
+        for q in always:
+            n += 1
+            bad = None
+            for p in rets:
+                exprs = [t for t, _pol, _n in p.conds] + [ev.expr for ev in p.events if ev.expr is not None] + ([p.value] if p.value is not None else [])
+                if not any(isinstance(y, ast.Name) and y.id == q for e in exprs for y in ast.walk(e)):
+                    bad = p
+                    break
+            if bad is None:
+                res.ok("C15.R16", res.site(md, q), f"read on all {len(rets)} returning path(s)", nontrivial=False)
+            else:
+                res.violation("C15.R16", md, bad.node or md.node, f"{cname}.modify returns without ever reading its parameter `{q}` on the path [{bad.cond_text()[:110]}]: a caller that sets `{q}` together with this combination of the other parameters gets a copy with the OLD value — modify no longer equals create from the merged parameters", key_extra=f"modify-ignores-{cname}-{q}")
+    if n < 10:
+        raise AnalysisError(f"C15.R16: only {n} (class, parameter) instances, minimum 10")
+
+
+def rule_r17(prog, res) -> None:
+    """scale limits are converted with the factor of their unit and the distance measure of their kind (= C01.R4: the
+    conversion tables of Angular / Physical / ComovingScales folded for one unit of scale at distance 2)"""
+    from . import c01
+    from .common import shared_rule
+
+    shared_rule(res, c01.rule_r4, "C01", "C01.R4", "C15.R17")
+
+
 RULES = [
     ("C15.R1", rule_r1, QUICK),
     ("C15.R2", rule_r2, QUICK),
@@ -1004,4 +1063,6 @@ RULES = [
     ("C15.R13", rule_r13, QUICK),
     ("C15.R14", rule_r14, QUICK),
     ("C15.R15", rule_r15, QUICK),
+    ("C15.R16", rule_r16, QUICK),
+    ("C15.R17", rule_r17, QUICK),
 ]
